@@ -175,10 +175,10 @@ V("O02.helpers", ["C02", "C12", "C05"], "c02_helpers", expect_verified=7,
   desc="verbatim bodies: slot access in bounds under the stated precondition; popframe cuts the stack to the popped base and restores the caller's ip/bp; pushframe saves the return address; frames below untouched")
 V("O12.arms", ["C12", "C02", "C03", "C05"], "c12_calls", expect_verified=3,
   functions=["VM::run arm Call", "VM::run arm ReturnValue", "VM::run arm Return"],
-  desc="Call: base = len-1-argc, args in place, remaining locals null, callee word gone, one frame pushed with the return address, everything below base unchanged, non-function -> TypeError, argc > slots or base > 65535 -> ArgumentError. Return(Value): stack == caller's stack ++ [result], frame popped, ip/bp restored, collector roots cover stack, constants, globals, last value and the returned value")
+  desc="Call: base = len-1-argc, args in place, remaining locals null, callee word gone, one frame pushed with the return address, everything below base unchanged, non-function -> TypeError, argc > slots, base > 65535 or more than 65535 nested calls -> ArgumentError. Return(Value): stack == caller's stack ++ [result], frame popped, ip/bp restored, collector roots cover stack, constants, globals, last value and the returned value")
 V("O12.4", ["C12", "C02", "C05", "C11"], "c12_callsite", expect_verified=11,
   functions=["Compiler::compile_expression arms Expr::Call, Expr::Array, Expr::Index, Expr::Prefix, Expr::Bool, Expr::Int, Expr::Float, Expr::String", "Compiler::compile_statement arms Stmt::Expr, Stmt::Return, Stmt::Block"],
-  desc="call site: arguments compiled left to right, then the callee (or the builtin's byte), argc == argument count <= 255; array elements left to right + count; index: target, index, IndexGet; prefix operators; literals (Int constant slot holds the literal, out-of-range literal is an error with nothing emitted); expression statement ends in Pop; antwoord outside a function is a SyntaxError with nothing emitted")
+  desc="call site: arguments compiled left to right, then the callee (or the builtin's byte - only when the name is a builtin's AND the program has not declared it itself, O09.b), argc == argument count <= 255; array elements left to right + count; index: target, index, IndexGet; prefix operators; literals (Int constant slot holds the literal, out-of-range literal is an error with nothing emitted); expression statement ends in Pop; antwoord outside a function is a SyntaxError with nothing emitted")
 V("O02.ind", ["C02", "C11", "C09", "C10", "C12"], "c02_dispatch", expect_verified=3,
   functions=["Compiler::compile_expression (whole function, 14 arms outlined)", "Compiler::compile_statement (whole function, 6 arms outlined)"],
   desc="closes the structural induction of the code generator: for EVERY kind of expression / statement (real match; an arm that no unit holds is a lost anchor) success implies the generator contract gen_post that all arms assume of their recursive calls; each outlined arm's contract is taken from the unit that verifies the arm's real text (//@ASSUMES checks the clause and the precondition literally)")
@@ -235,7 +235,7 @@ V("O09.1w", ["C09", "C17", "C02", "C12"], "c09_names", expect_verified=20,
   desc="real struct definitions (R9) and verbatim bodies: declarations go to the innermost scope of the innermost context; a block opens / closes exactly one scope; lookup tries the current context, then - only inside a function - the GLOBAL context, never an enclosing function's; a function's context is pushed / popped as a whole; reset keeps only the outermost global scope. Lemmas (all sizes) over the view contracts of Context::define / resolve: shadowing, latest declaration wins, other names unaffected, block end forgets, slots in range")
 V("O09.3", ["C09", "C10", "C05"], "c09_slots", expect_verified=3,
   functions=["Compiler::compile_expression arm Expr::Identifier", "Compiler::compile_statement arm Stmt::Let", "Compiler::compile_expression arm Expr::Assign"],
-  desc="unresolved name -> ReferenceError with nothing emitted; load/store opcode family chosen from the symbol's scope; operand == the symbol's slot; assignment stores then reloads the same slot; element assignment compiles target, index, value in order")
+  desc="unresolved name -> ReferenceError with nothing emitted; load/store opcode family chosen from the symbol's scope; operand == the symbol's slot; assignment stores then reloads the same slot; element assignment compiles target, index, value in order; a declaration is NOT in scope inside its own initializer (O09.init: the initializer is compiled while the context holds the old number of names) unless it is a function value, which is declared first so that it can call itself")
 K("O09.len", ["C09", "C05"], "symbols", "c09_total_len", level="bounded", bound="three scopes of 0..=2 names each", functions=["Context::total_len"],
   desc="total_len is the sum of the scope lengths (real iterator fold): the contract under which Context::define is verified")
 K("O09.res", ["C09"], "symbols", "c09_resolve_two_scopes", level="bounded", bound="two open scopes of 0..=2 names each over {a, b}", functions=["Context::resolve", "Context::total_len"],
@@ -369,7 +369,7 @@ PROPERTIES = {
     },
     "C09": {
         "level": "proof",
-        "claim": "PARTIAL. Proved (Verus): the symbol table of src/symbols.rs on its REAL struct definitions - new / new_context / leave_context / current_context / in_function / resolve / define / enter_scope / leave_scope / reset_to_global and Context::new verbatim: a block opens exactly one empty scope and its end closes exactly that scope, a function body sees its own context and the global one, never an enclosing function's, declarations go to the innermost scope of the innermost context. Over the contracts of the two per-context functions (Context::define / resolve, stated on the VIEW stack-of-scopes-of-names of the real struct) the scoping statements of the property are lemmas for contexts of EVERY size: inner declarations shadow without disturbing the outer slot, the latest declaration of a name in a block takes over, other names are unaffected, a block's names cease to exist at its end, slots are in range. Context::define is proved total and appending for EVERY symbol count (Kani, modular over total_len). The compiler arms turn a resolved name into a load/store of exactly its slot in its scope's opcode family, an unresolved name is rejected before anything is emitted, and eval never enters the machine when compilation failed (Kani). BOUNDED (not proved): that the real Context::resolve / total_len compute the view functions (two scopes of 0..=2 names; three scopes).",
+        "claim": "PARTIAL. Proved (Verus): the symbol table of src/symbols.rs on its REAL struct definitions - new / new_context / leave_context / current_context / in_function / resolve / define / enter_scope / leave_scope / reset_to_global and Context::new verbatim: a block opens exactly one empty scope and its end closes exactly that scope, a function body sees its own context and the global one, never an enclosing function's, declarations go to the innermost scope of the innermost context. Over the contracts of the two per-context functions (Context::define / resolve, stated on the VIEW stack-of-scopes-of-names of the real struct) the scoping statements of the property are lemmas for contexts of EVERY size: inner declarations shadow without disturbing the outer slot, the latest declaration of a name in a block takes over, other names are unaffected, a block's names cease to exist at its end, slots are in range. Context::define is proved total and appending for EVERY symbol count (Kani, modular over total_len). The compiler arms turn a resolved name into a load/store of exactly its slot in its scope's opcode family, an unresolved name is rejected before anything is emitted, a declaration is not in scope inside its own initializer (except a function value, declared first so that it can call itself), a name the program declares wins over a builtin of the same name in call position, and eval never enters the machine when compilation failed (Kani). BOUNDED (not proved): that the real Context::resolve / total_len compute the view functions (two scopes of 0..=2 names; three scopes).",
         "note": "Context::define / resolve use iterator closures (fold, rev, rposition): no Verus model, so their view contracts are ASSUMED in the Verus unit and checked on the real code by Kani - define for all counts, resolve / total_len within the stated bound. Sequences of define calls do not finish in CBMC (measured: out of memory / > 600 s for 2+2 declarations), hence the composition is done by the Verus lemmas over views. The compiler units use the table through EXACTLY the contracts this unit proves (copied mechanically, //@ASSUMES full), over one shared vocabulary (symbols_spec.rs); their preconditions (a usable table `sym_wf`, depth >= 2 before leave_scope, a function context to leave) are proved at every call site of the compiler and are what makes the unwrap()s of symbols.rs unreachable. Trusted: Verus/Z3, Kani/CBMC, rules R4, R9.",
         "design_ref": "DESIGN.md 3.13",
         "undecided": ["Context::resolve beyond two scopes of two names (bounded)", "compile-time slot == run-time slot for every program (composition with C02/C12)"],
